@@ -139,6 +139,7 @@ func newEIOServer(cfg *eio.ServerConfig) (*eio.Server, *httptest.Server, *srvObs
 type countingReader struct {
 	n, total int64
 	read     int64
+	prefix   string // first bytes of the body (default "4": a message packet)
 }
 
 func (c *countingReader) Read(p []byte) (int, error) {
@@ -152,8 +153,14 @@ func (c *countingReader) Read(p []byte) (int, error) {
 	for i := int64(0); i < k; i++ {
 		p[i] = 'a'
 	}
-	if c.n == 0 && k > 0 {
-		p[0] = '4'
+	pre := c.prefix
+	if pre == "" {
+		pre = "4"
+	}
+	for i := int64(0); i < k; i++ {
+		if c.n+i < int64(len(pre)) {
+			p[i] = pre[c.n+i]
+		}
 	}
 	c.n += k
 	atomic.AddInt64(&c.read, k)
@@ -168,7 +175,7 @@ func inbound(w *vtrace.Writer, res *vres.Result, limitName string, cfg eio.Serve
 	consumed := int64(0)
 	note := ""
 	switch tr {
-	case "polling-cl", "polling-chunked":
+	case "polling-cl", "polling-chunked", "polling-jsonp-cl", "polling-jsonp-chunked":
 		resp, err := http.Get(ts.URL + "/?EIO=4&transport=polling")
 		if err != nil {
 			res.Inconclusive("limit", err.Error(), 0)
@@ -184,9 +191,19 @@ func inbound(w *vtrace.Writer, res *vres.Result, limitName string, cfg eio.Serve
 		sid := string(b)[i+7:]
 		sid = sid[:strings.IndexByte(sid, '"')]
 		body := &countingReader{total: size + 1}
-		req, _ := http.NewRequest("POST", ts.URL+"/?EIO=4&transport=polling&sid="+sid, body)
-		if tr == "polling-cl" {
-			req.ContentLength = size + 1
+		url := ts.URL + "/?EIO=4&transport=polling&sid=" + sid
+		jsonp := strings.Contains(tr, "jsonp")
+		if jsonp {
+			// JSON-P clients post a form: d=<payload>
+			body = &countingReader{total: size + 3, prefix: "d=4"}
+			url += "&j=0"
+		}
+		req, _ := http.NewRequest("POST", url, body)
+		if jsonp {
+			req.Header.Set("Content-Type", "application/x-www-form-urlencoded")
+		}
+		if strings.HasSuffix(tr, "-cl") {
+			req.ContentLength = body.total
 		} else {
 			req.ContentLength = -1 // chunked transfer encoding: the size is not declared
 		}
@@ -246,7 +263,11 @@ loop:
 	delivered := len(obs.got) == 1 && int64(obs.got[0]) == size
 	closed, reason := obs.closed, obs.reason
 	obs.mu.Unlock()
-	rec := vtrace.Rec{"ev": "limit", "dir": "c2s", "transport": tr, "limitName": limitName, "limit": effLimit, "size": size,
+	overhead := 1
+	if strings.Contains(tr, "jsonp") {
+		overhead = 3
+	}
+	rec := vtrace.Rec{"ev": "limit", "dir": "c2s", "overhead": overhead, "transport": tr, "limitName": limitName, "limit": effLimit, "size": size,
 		"delivered": delivered, "closed": closed, "reason": reason, "consumed": consumed, "slack": 4 << 20, "note": note}
 	w.Write([]vtrace.Rec{rec})
 	res.Case(fmt.Sprint("c2s", tr, limitName, size), true)
@@ -302,7 +323,7 @@ func outbound(w *vtrace.Writer, res *vres.Result, tr string, size int64) {
 	time.Sleep(20 * time.Millisecond)
 	mu.Lock()
 	delivered := len(got) == 1 && int64(got[0]) == size
-	rec := vtrace.Rec{"ev": "limit", "dir": "s2c", "transport": tr, "limitName": "announced", "limit": int64(1e6), "size": size,
+	rec := vtrace.Rec{"ev": "limit", "dir": "s2c", "overhead": 1, "transport": tr, "limitName": "announced", "limit": int64(1e6), "size": size,
 		"delivered": delivered, "closed": closed, "reason": reason, "consumed": 0, "slack": 0, "note": ""}
 	mu.Unlock()
 	w.Write([]vtrace.Rec{rec})
@@ -361,7 +382,7 @@ func TestC13(t *testing.T) {
 		case "disabled":
 			sizes = []int64{100, 32767, 32768, 40000, 65536, 1200000}
 		}
-		for _, tr := range []string{"polling-cl", "polling-chunked", "websocket"} {
+		for _, tr := range []string{"polling-cl", "polling-chunked", "polling-jsonp-cl", "polling-jsonp-chunked", "websocket"} {
 			for _, s := range sizes {
 				inbound(w, res, lm.name, lm.cfg, lm.eff, tr, s)
 			}
